@@ -23,6 +23,9 @@ TIERS = {
 BOOTS = ["shipped", "absent", "seeded-1", "seeded-2"]
 
 
+SCALE_PROPS = ("C02",)
+
+
 def run_seed(master, index):
     h = hashlib.sha256(f"{master}:{index}".encode()).digest()
     return int.from_bytes(h[:6], "big")
@@ -68,6 +71,10 @@ def worker_chunk(args, real_openql=False):
     for idx in indices:
         seed = run_seed(master, idx)
         desc = generator.generate(seed, profile, boot_id)
+        if idx == 0 and prop in SCALE_PROPS and not real_openql:
+            # the scale probe (engine.run_scale) takes the place of run 0
+            desc = {"format": 1, "profile": profile, "seed": seed, "boot": boot_id, "swarm": {"scale": True},
+                    "scale": {"n": 5100, "qubits": 8}, "steps": []}
         desc["run_index"] = idx
         desc["master_seed"] = master
         if real_openql:
@@ -162,6 +169,21 @@ def worker_minimise(args):
     from sim import engine, shrink
     oracle = finding["oracle"]
     diag = finding.get("detail", {}).get("diag")
+    if desc.get("scale"):
+        # minimise the size: the smallest of a few sizes at which the same oracle still fires
+        evals = 0
+        best = desc
+        for n in (16, 128, 1024, 2048, 4096):
+            if n >= desc["scale"]["n"]:
+                break
+            d = dict(desc, scale=dict(desc["scale"], n=n))
+            evals += 1
+            if any(prop in f["props"] and f["oracle"] == oracle for f in engine.run_descriptor(d)["findings"]):
+                best = d
+                break
+        r = engine.run_descriptor(best)
+        fs = [f for f in r["findings"] if prop in f["props"] and f["oracle"] == oracle]
+        return {"desc": best, "finding": fs[0] if fs else None, "evals": evals, "all_findings": [f for f in r["findings"] if prop in f["props"]]}
 
     def predicate(d, point):
         try:
